@@ -244,12 +244,36 @@ pub struct Case {
     /// (step, interaction kind, first MOSI byte, occurrence within the step)
     pub fault_sel: Option<(i32, String, Option<u8>, u32)>,
     pub recovery: Option<Recovery>,
+    /// how the `LoRa` object is built: 0 `new(public network)`, 1 `new(private network)`,
+    /// 2 `with_syncword(0xAB)`, 3 `with_syncword(0x34)` — the sync word configured there is the one every
+    /// later transmission and reception must start with (until `set_lora_sync_word` changes it)
+    pub ctor: u8,
+}
+
+/// constructor variant derived from the operations, so that enumerated sequences spread over all four
+pub fn ctor_of(board: Board, ops: &[Op]) -> u8 {
+    let mut h: u32 = 0x811c_9dc5 ^ board.name().len() as u32;
+    for o in ops {
+        for b in o.to_json().to_string().bytes() {
+            h = (h ^ b as u32).wrapping_mul(0x0100_0193);
+        }
+    }
+    ((h >> 7) % 4) as u8
+}
+
+pub fn ctor_sync(ctor: u8) -> u16 {
+    match ctor {
+        1 => 0x1424,
+        2 => 0xA4B4,
+        _ => 0x3444,
+    }
 }
 
 impl Case {
     pub fn plain(board: Board, ops: Vec<Op>, phase: bool) -> Case {
         let n = ops.len();
-        Case { board, ops, duty_sleep_phase: vec![phase; n], fault_at: None, fault_sel: None, recovery: None }
+        let ctor = ctor_of(board, &ops);
+        Case { board, ops, duty_sleep_phase: vec![phase; n], fault_at: None, fault_sel: None, recovery: None, ctor }
     }
     pub fn to_json(&self) -> Value {
         json!({
@@ -260,6 +284,7 @@ impl Case {
             "fault_at": self.fault_at,
             "fault": self.fault_sel.as_ref().map(|(st, kd, fb, n)| json!({"step": st, "kind": kd, "spi_first_byte": fb, "occurrence": n})),
             "recovery": self.recovery.map(|r| match r { Recovery::Tx => "prepare_for_tx+tx", Recovery::Rx => "prepare_for_rx+rx" }),
+            "constructor": (["new(public)", "new(private)", "with_syncword(0xAB)", "with_syncword(0x34)"][(self.ctor % 4) as usize]),
         })
     }
     pub fn from_json(v: &Value) -> Option<Case> {
@@ -280,6 +305,12 @@ impl Case {
                 Some("prepare_for_tx+tx") => Some(Recovery::Tx),
                 Some("prepare_for_rx+rx") => Some(Recovery::Rx),
                 _ => None,
+            },
+            ctor: match v["constructor"].as_str() {
+                Some("new(private)") => 1,
+                Some("with_syncword(0xAB)") => 2,
+                Some("with_syncword(0x34)") => 3,
+                _ => 0,
             },
         })
     }
@@ -809,7 +840,13 @@ fn interp<RK: RadioKind>(rk: RK, world: Shared, case: &Case) -> RunOut {
     let cj = case.to_json();
     // ---- construction (runs init)
     world.borrow_mut().cur_op = "new".into();
-    let built = catch(move || poll_once(LoRa::new(rk, true, WDelay)));
+    let ctor = case.ctor;
+    let built = catch(move || match ctor {
+        1 => poll_once(LoRa::new(rk, false, WDelay)),
+        2 => poll_once(LoRa::with_syncword(rk, 0xAB, WDelay)),
+        3 => poll_once(LoRa::with_syncword(rk, 0x34, WDelay)),
+        _ => poll_once(LoRa::new(rk, true, WDelay)),
+    });
     let lora = match built {
         Err(p) => {
             out.failure = Some(Failure::new("I4", cj, format!("LoRa::new panicked: {p}")).with_fp(format!("i4/{}", panic_fp(&p))));
@@ -840,7 +877,7 @@ fn interp<RK: RadioKind>(rk: RK, world: Shared, case: &Case) -> RunOut {
         out.failure = Some(Failure::new(v.rule, cj, v.detail.clone()).with_fp(v.fp.clone()));
         return out;
     }
-    let mut it = Interp { lora, world: world.clone(), board: case.board, proto: PMode::Standby, sync: 0x3444, sync_alt: None, recovering: false, exp_freq: None, exp_payload: vec![], saw_loss_or_failure: false, nontrivial: false, classes: vec![], carried_error: false, carried_done: false, carried_terminal: None };
+    let mut it = Interp { lora, world: world.clone(), board: case.board, proto: PMode::Standby, sync: ctor_sync(case.ctor), sync_alt: None, recovering: false, exp_freq: None, exp_payload: vec![], saw_loss_or_failure: false, nontrivial: false, classes: vec![], carried_error: false, carried_done: false, carried_terminal: None };
     let mut faulted = false;
     for (idx, op) in case.ops.iter().enumerate() {
         match it.step(case, idx, op) {
@@ -1296,7 +1333,8 @@ pub fn random_case() -> impl Strategy<Value = Case> {
             let mut ops: Vec<Op> = frags.into_iter().flatten().collect();
             ops.truncate(30);
             let n = ops.len();
-            Case { board, ops, duty_sleep_phase: phases[..n].to_vec(), fault_at: None, fault_sel: None, recovery: None }
+            let ctor = ctor_of(board, &ops);
+            Case { board, ops, duty_sleep_phase: phases[..n].to_vec(), fault_at: None, fault_sel: None, recovery: None, ctor }
         })
     })
 }
